@@ -337,8 +337,9 @@ def h_exact_scripthash(c, pkg, shape, slen):
 class SelectiveByLenAny(SelectiveByLen):
     """every EVAL sub-tape (callstack_count > 0) is logged and summarised"""
 
-    def __init__(self, pkg, c):
+    def __init__(self, pkg, c, only=None):
         super().__init__(pkg, c, -1)
+        self.only = only          # if given: only sub-tapes whose data is one of these objects (witness items) are EVAL targets
 
     def __enter__(self):
         F = self.pkg.functions
@@ -346,7 +347,7 @@ class SelectiveByLenAny(SelectiveByLen):
         me = self
 
         def run_tape(tape, stack, cache, additional_flags=None):
-            if tape.callstack_count > 0:
+            if tape.callstack_count > 0 and (me.only is None or any(tape.data is o for o in me.only)):
                 k = len(me.evaluated)
                 me.evaluated.append(tape.data)
                 if additional_flags is not None:
